@@ -176,7 +176,7 @@ func uiSessionUnits(c *Ctx, contract string, sessions []uiSession, mk func(us *U
 			}()
 			p.NoSafety = true
 		}
-		us.CallHook = c.valueHook
+		us.CallHook = c.uiHook
 		us.Inputs = func(p *sx.Path, ev *spec.Eval, fn *ssa.Function) map[string]sx.Val {
 			c.installUIBuiltins(ev, world)
 			c.installStrBuiltins(ev)
@@ -216,4 +216,44 @@ func init() {
 			return uiSessionUnits(c, "(*consoleui.UI).Run", uiSessions(c.Tier), nil)
 		},
 	})
+}
+
+// uiHook: contracts of the constant arithmetic (C10, C27) at call sites, and a
+// case split at Cursor.Set: a new cursor value inside the valid range is
+// split into its (finitely many) values, so that the rendering that follows
+// runs on a concrete cursor. The real Set is executed in every case.
+func (c *Ctx) uiHook(p *sx.Path, fn *ssa.Function, args []sx.Val, site ssa.Instruction) (sx.Val, bool) {
+	if r, ok := c.valueHook(p, fn, args, site); ok {
+		return r, true
+	}
+	if sx.FuncName(fn) != "(*consoleui/internal/cursor.Cursor).Set" {
+		return nil, false
+	}
+	v, ok := args[1].(*smt.Term)
+	if !ok || v.IsConst() {
+		return nil, false
+	}
+	recv, ok := args[0].(sx.Ptr)
+	if !ok || recv.Obj == 0 {
+		return nil, false
+	}
+	curT := c.pkgType("mltwist/internal/consoleui/internal/cursor", "Cursor")
+	cs, ok := p.Load(recv, "cursor").(*sx.Struct)
+	if !ok {
+		return nil, false
+	}
+	max, okm := sx.ConstInt(cs.F[fieldIdx(curT, "maxValue")])
+	if !okm || max > 4096 {
+		return nil, false
+	}
+	if p.Decide(smt.BVSlt(v, smt.BVU(0, 64))) || p.Decide(smt.BVSle(smt.BVI(max, 64), v)) {
+		return nil, false // out of range: Set rejects it, whatever the value
+	}
+	for k := int64(0); k < max; k++ {
+		if k == max-1 || p.Decide(smt.Eq(v, smt.BVI(k, 64))) {
+			p.Assume(smt.Eq(v, smt.BVI(k, 64)))
+			return p.Call(fn, []sx.Val{recv, smt.BVI(k, 64)}, nil, nil), true
+		}
+	}
+	return nil, false
 }
